@@ -165,3 +165,126 @@ def fam_composite(T=3, thorough=False):
                   F.contract(T, 'n2', [-1, -2, 0][:T] + [0] * (T - 3), [1, 0, 2][:T] + [1] * (T - 3), 3)]
         out.append(F.make_cfg(cid, T, assets, dt=[2] * T if cid % 4 == 0 else None))
     return out
+
+
+# ---------------------------------------------------------------- storage options (C05)
+def fam_storage_mip(T=3, thorough=False):
+    """no-simultaneous option and maximum holding duration (MIP)"""
+    ids = Ids()
+    out = []
+    base = [dict(size=2, cin=1, cout=1, eff=(1, 2)), dict(size=2, cin=2, cout=2, costin=1), dict(size=3, cin=2, cout=1, costout=1, eff=(1, 2), end=1)]
+    for st, two, pr, opt in itertools.product(base, (False, True), ([1, 5, 2], [4, 1, 3], [2, -3, 4]),
+                                              (dict(nosimult=True), dict(maxhold=1), dict(maxhold=2), dict(nosimult=True, maxhold=1))):
+        pr = (pr * T)[:T]
+        kw = dict(st)
+        kw.update(opt)
+        s = F.storage(T, 'n1', 'n2' if two else 'n1', **kw)
+        assets = [slack(T, 'n1', pr, lo=-3, hi=3), s]
+        if two:
+            assets.append(slack(T, 'n2', [3] * T, lo=-3, hi=3))
+        out.append(F.make_cfg(ids(), T, assets))
+    return out
+
+
+def fam_storage_hold_T(T=4):
+    ids = Ids()
+    out = []
+    for mh, dt, pr in itertools.product((1, 2, 3), ([1] * T, [2] * T), ([1, 5, 2, 6], [4, 1, 1, 5])):
+        s = F.storage(T, 'n1', size=2, cin=1, cout=1, maxhold=mh * dt[0])
+        out.append(F.make_cfg(ids(), T, [slack(T, 'n1', pr[:T], lo=-2, hi=2), s], dt=dt))
+    return out
+
+
+def fam_storage_blocks(T=4, thorough=False, inflow=(0,)):
+    """time blocks: block_size '2h' on an hourly grid; window from grid start (blocks anchored at the asset start)"""
+    ids = Ids()
+    out = []
+    for TT, st, pr, infl in itertools.product((4, 5, 6, 7) if thorough else (4, 5),
+                                              [dict(size=2, cin=1, cout=1), dict(size=2, cin=2, cout=1, start=1, end=1, eff=(1, 2)),
+                                               dict(size=3, cin=1, cout=2, start=2, end=2, costin=1)],
+                                              ([1, 5, 2, 6, 3, 1, 4], [4, 1, 3, 2, 5, 1, 2]), inflow):
+        blocks = {s for s in range(3, TT + 1, 2)}
+        kw = dict(st)
+        kw['inflow'] = infl
+        s = F.storage(TT, 'n1', blocks=blocks, block_size='2h', **kw)
+        out.append(F.make_cfg(ids(), TT, [slack(TT, 'n1', pr[:TT], lo=-3, hi=3), s]))
+    return out
+
+
+# ---------------------------------------------------------------- order book (C20)
+def fam_orders(T=3, thorough=False):
+    ids = Ids()
+    out = []
+    H = T
+    books = [
+        [(0, H, 1, 2)], [(0, H, -1, 4)], [(1, 2, 2, 1)], [(0, 2, 1, 2), (1, 3, -1, 4)],
+        [(-1, 1, 2, 1), (2, H + 2, -2, 5)],                       # straddling start / end
+        [(-3, 0, 2, 1), (0, H, 1, 2)], [(0, H, 1, 2), (H, H + 2, -2, 9)],   # one order wholly outside
+        [(-3, -1, 2, 1)], [(H + 1, H + 3, -1, 9)],                # all orders outside
+        [(0, 1, 1, 1), (0, 1, 1, 3), (0, 1, -1, 2)],              # competing orders on one step
+    ]
+    for orders, full, companion, pr in itertools.product(books, (False, True), ('contract', 'storage'), ([3, 1, 4], [2, 5, 1])):
+        pr = (pr * T)[:T]
+        ob = F.orderbook(T, 'n1', orders, fullexec=full, fden=2)
+        assets = [ob, slack(T, 'n1', pr, lo=-2, hi=2, ec=1)]
+        if companion == 'storage':
+            assets.append(F.storage(T, 'n1', size=2, cin=1, cout=1))
+        out.append(F.make_cfg(ids(), T, assets))
+    return out
+
+
+def fam_orders_dt(T=3):
+    """orders on grids with longer steps (delivery = fraction x capacity x step length) and discounting"""
+    ids = Ids()
+    out = []
+    disc, DEN = F.disc_pow2(T)
+    for orders, full in itertools.product([[(0, 6, 1, 2)], [(2, 4, -1, 4), (0, 4, 1, 1)], [(-2, 2, 1, 1), (4, 8, -1, 5)]], (False, True)):
+        ob = F.orderbook(T, 'n1', orders, fullexec=full, fden=2)
+        out.append(F.make_cfg(ids(), T, [ob, slack(T, 'n1', [3, 1, 4][:T], lo=-2, hi=2)], dt=[2] * T))
+    for orders, full in itertools.product([[(0, 3, 1, 2)], [(1, 2, -1, 4), (0, 2, 1, 1)], [(-1, 1, 1, 1), (2, 4, -1, 5)]], (False, True)):
+        ob = F.orderbook(T, 'n1', orders, fullexec=full, fden=2, disc=disc)
+        out.append(F.make_cfg(ids(), T, [ob, F.contract(T, 'n1', -2, 2, [3, 1, 4][:T], disc=disc)], DEN=DEN, wacc=1.0, cal='y'))
+    return out
+
+
+# ---------------------------------------------------------------- placements relative to the horizon (C08)
+def placements(T):
+    return dict(before=(-2, 0), touching_before=(-1, 1), straddle_start=(0, 3), inside=(2, T), straddle_end=(T, T + 3),
+                touching_after=(T + 1, T + 3), after=(T + 2, T + 4), empty=(2, 2), covering=(-1, T + 3))
+
+
+def fam_placement(T=3, thorough=False):
+    """every asset kind at every placement of its window; the rest of the portfolio is a spread contract + slack"""
+    ids = Ids()
+    out = []
+    for (pname, (ws, we)), kind in itertools.product(placements(T).items(), ('contract', 'transport', 'storage', 'multi')):
+        rest = [F.contract(T, 'n1', -1, 1, [1, 5, 2][:T], ec=1), slack(T, 'n1', 3, lo=-4, hi=4), slack(T, 'n2', [2, 4, 1][:T], lo=-4, hi=4)]
+        if kind == 'contract':
+            x = F.contract(T, 'n1', -1, 2, [4, 1, 3][:T], ec=1, ws=ws, we=we)
+        elif kind == 'transport':
+            x = F.transport(T, 'n1', 'n2', 0, 2, eff=(1, 2), cost=1, ws=ws, we=we)
+        elif kind == 'storage':
+            x = F.storage(T, 'n1', size=2, cin=1, cout=1, start=1, end=1, eff=(1, 2), ws=ws, we=we)
+        else:
+            x = F.multi(T, ['n1', 'n2'], [(1, 1), (1, 2)], 0, 2, [2, 1, 3][:T], ws=ws, we=we)
+        out.append(F.make_cfg(ids(), T, rest + [x], placement=pname, element=kind, element_index=3))
+    return out
+
+
+def fam_take_placement(T=3):
+    ids = Ids()
+    out = []
+    dt = [2] * T
+    H = 2 * T
+    pl = dict(before=(-4, 0), straddle_start=(-2, 2), inside=(2, 4), straddle_end=(H - 2, H + 4), after=(H, H + 4), covering=(-2, H + 2),
+              unaligned=(1, 3), far_after=(H + 2, H + 6))
+    for (pname, (s, e)), sense, kind in itertools.product(pl.items(), ('min', 'max'), ('contract', 'transport')):
+        tk = [dict(s=s, e=e, vol=4, sense=sense)]
+        if kind == 'contract':
+            x = F.contract(T, 'n1', 0, 2, [4, 1, 3][:T] if sense == 'min' else [1, 1, 1][:T], takes=tk, force_contract=True)
+            rest = [slack(T, 'n1', [2, 3, 2][:T], lo=-4, hi=0)]
+        else:
+            x = F.transport(T, 'n1', 'n2', 0, 2, cost=3 if sense == 'min' else 0, takes=tk)
+            rest = [slack(T, 'n1', [1, 1, 1][:T], lo=-4, hi=4), slack(T, 'n2', [2, 3, 2][:T] if sense == 'max' else [1, 1, 1], lo=-4, hi=4)]
+        out.append(F.make_cfg(ids(), T, rest + [x], dt=dt, placement=pname, element='take_' + kind, element_index=len(rest)))
+    return out
